@@ -190,7 +190,7 @@ func runC16(c *Ctx) {
 			}
 			lt := false
 			for _, l := range guardsOf(in.Block()) {
-				op, x, y, ok := l.cmp()
+				op, x, y, ok := l.cmpWith(sl.High)
 				if ok && op == token.LSS && stripConv(x) == stripConv(sl.High) {
 					if lc, ok := stripConv(y).(*ssa.Call); ok {
 						if b, ok := lc.Call.Value.(*ssa.Builtin); ok && b.Name() == "len" {
